@@ -542,7 +542,18 @@ def synthloc(repo, schema=None, sites=None):
     res.instances += 1
     aware = any("is_synthetic" in repo.mod(f.file).seg(f.node) for f in local)
     reports = [f for f in local if "error.error(" in repo.mod(f.file).seg(f.node)]
-    if reports and not aware:
+    # compensation: everything synthetics.py adds to the user's arithmetic is `start + size` of a physical field
+    # ($size_in_*, the replacement of $next).  If check_constraints bounds that sum for every Field at the field's own
+    # location, an overflow of the synthesised expressions always has a natural, located counterpart.
+    natural = False
+    for s_ in sites:
+        if s_.action is None or not s_.module.rel.endswith("front_end/constraints.py") or s_.pattern != ["Field"]:
+            continue
+        src_ = repo.mod(s_.action.file).seg(s_.action.node)
+        if "location.start" in src_ and "location.size" in src_ and "_bounds_can_fit_any_64_bit_integer_type" in src_ \
+                and "errors.append" in src_ and re.search(r"\[0\]\[1\]\s*\+\s*\w+\[1\]\[1\]|maximum\w*\s*\+\s*\w*maximum", src_):
+            natural = True
+    if reports and not aware and not natural:
         f = reports[0]
         res.add(f"compiler/front_end/constraints.py|{act.name}|synthetic-location", f"{act.name} (through {', '.join(sorted(x.name for x in reports))}) "
                 "reports range errors at the expression's own source location without regard to is_synthetic: for a structure whose "
